@@ -238,15 +238,80 @@ class _Life:
             world.faults = {}
             world.reset_counters()
         self.crash.at("reboot")
-        try:
-            proto.handle_request(dict(req))
-            outcome = "serve"
-        except HSM2ProtocolInterrupt:
-            outcome = "stop"
-        except BaseException:   # noqa
-            outcome = "stop"
+        client = p.get("client", "direct")
+        if client != "direct":
+            # through the server's own per-connection handler over a real loopback connection, with a client that
+            # waits for the reply / has closed / has reset the connection by the time the reply is written
+            outcome = self.serve_over_socket(proto, req, client, world)
+        else:
+            try:
+                proto.handle_request(dict(req))
+                outcome = "serve"
+            except HSM2ProtocolInterrupt:
+                outcome = "stop"
+            except BaseException:   # noqa
+                outcome = "stop"
         self.crash.at("ending")
         self.emit({"k": "end", "outcome": outcome, "mem_bytes": bytes(pin.get_pin()).hex()})
+
+
+def _serve_over_socket(self, proto, req, client, world):
+    """One request handled by comm.server's connection handler exactly as socketserver would run it. The manager
+    stops iff the handler asks the server to shut down; an exception the handler lets out is logged by socketserver
+    and the manager carries on."""
+    import logging
+    import socket
+    import struct
+    import threading
+    import time
+    import comm.server as cs
+    lst = socket.socket()
+    lst.bind(("127.0.0.1", 0))
+    lst.listen(1)
+    c = socket.create_connection(lst.getsockname(), timeout=10)
+    conn, addr = lst.accept()
+    c.sendall(json.dumps(req).encode() + b"\n")
+    stopped = threading.Event()
+
+    class Srv:
+        protocol = proto
+        logger = logging.getLogger("srver")
+
+        def shutdown(self):
+            stopped.set()
+    gone = {"done": False}
+    prev = world.on_event
+
+    def on_event(ev):
+        # the client goes away while the device is being talked to (first exchange of the request)
+        if not gone["done"] and ev["ev"] in ("apdu", "open", "close") and client in ("fin", "rst"):
+            gone["done"] = True
+            if client == "rst":
+                c.setsockopt(socket.SOL_SOCKET, socket.SO_LINGER, struct.pack("ii", 1, 0))
+            c.close()
+            time.sleep(0.05)
+        if prev is not None:
+            prev(ev)
+    world.on_event = on_event
+    try:
+        cs._TCPServerRequestHandler(conn, addr, Srv())
+    except BaseException:   # noqa
+        pass                # socketserver.BaseServer.handle_error: printed, the server goes on
+    finally:
+        world.on_event = prev
+    for _ in range(40):
+        if stopped.is_set():
+            break
+        time.sleep(0.005)
+    for x in (c, conn, lst):
+        try:
+            x.close()
+        except OSError:
+            pass
+    return "stop" if stopped.is_set() else "serve"
+
+
+_Life.serve_over_socket = _serve_over_socket
 
 
 def preload():
@@ -334,6 +399,10 @@ class History:
                 "crash": crash, "start_mode": start_mode, "reboot": reboot, "crash_phase": crash_phase,
                 "pin_path": self.pin_path, "journal": self.journal,
                 "devpin": self.devpin.hex(), "seed": "%s:%d" % (self.seed, self.lives), "retries": retries}
+        if reboot:
+            # how the request that repairs the link reaches the manager, and what its client does meanwhile
+            import zlib
+            plan["client"] = ["direct", "wait", "fin", "rst"][zlib.crc32(plan["seed"].encode()) % 4]
         evs, crashed = run_lifetime(plan)
         j = read_file(self.journal)
         if j is not None:
